@@ -50,7 +50,7 @@ class RemoveEnclosingMiddleware(BlockMiddleware):
         value = value.strip()
         if value.startswith("{") and value.endswith("}"):
             return value[1:-1], "{"
-        if value.startswith('"') and value.endswith('"'):
+        if len(value) >= 2 and value.startswith('"') and value.endswith('"'):
             return value[1:-1], '"'
         return value, "no-enclosing"
 
